@@ -1337,9 +1337,34 @@ class SQLModel:
                 for k in select_columns_node.column_selection
                 if k in subusing
             }
-        else:
-            subsql.terms = []
-        return subsql
+            return subsql
+        # the source has no term list to narrow (raw SQL, record conversion): select from it
+        return self._select_terms_from_near_sql(
+            subsql,
+            columns=subusing,
+            node=select_columns_node,
+            temp_id_source=temp_id_source,
+        )
+
+    def _select_terms_from_near_sql(
+        self, subsql, *, columns, node, temp_id_source
+    ) -> data_algebra.near_sql.NearSQL:
+        """
+        Wrap a NearSQL that has no term list in a step selecting the given columns.
+        """
+        view_name = "select_columns_" + str(temp_id_source[0])
+        temp_id_source[0] = temp_id_source[0] + 1
+        terms: Dict[str, Optional[str]] = OrderedDict()
+        for k in columns:
+            terms[k] = None
+        return data_algebra.near_sql.NearSQLUnaryStep(
+            terms=terms,
+            query_name=view_name,
+            quoted_query_name=self.quote_identifier(view_name),
+            sub_sql=subsql.to_bound_near_sql(columns=list(columns)),
+            annotation=str(node.to_python_src_(print_sources=False, indent=-1)),
+            ops_key=f"select_columns({node}, {terms.keys()})",
+        )
 
     def drop_columns_to_near_sql(
         self,
@@ -1365,6 +1390,16 @@ class SQLModel:
             db_model=self, using=subusing, temp_id_source=temp_id_source
         )
         # /limit columns
+        if subsql.terms is None:
+            # the source has no term list to narrow (raw SQL, record conversion): select from it
+            return self._select_terms_from_near_sql(
+                subsql,
+                columns=[
+                    k for k in using if k not in drop_columns_node.column_deletions
+                ],
+                node=drop_columns_node,
+                temp_id_source=temp_id_source,
+            )
         subsql.terms = {
             k: subsql.terms[k]
             for k in using
